@@ -19,6 +19,7 @@ MUST_REJECT = {
     "comm_subst_shared": "C05", "comm_subst_independent": "C05", "inner_id_other": "C05", "omit_pred": "C05",
     "eq_independent_nonces": "C09", "eq_copy_response": "C09", "eq_unequal_shared_nonce": "C09",
     "withhold_consistent": "C02", "extra_consistent": "C02",
+    "tamper_extend_minus_c": "C11", "tamper_extend_zero": "C11", "tamper_shorten": "C11",
     "tamper_resp": "C11", "tamper_resp_neg": "C11", "tamper_resp_swap": "C11", "tamper_e1": "C11", "tamper_e2": "C11", "tamper_e3": "C11",
     "tamper_disc_scalar": "C11", "tamper_bp": "C11", "tamper_C": "C11", "tamper_reported": "C11",
 }
